@@ -4,9 +4,11 @@
 import Btcdeb.Model.Value
 namespace Btcdeb.Model
 
-/-- `pretend_valid_map[sig] = key` on a std::map: a later pair for the same signature replaces the earlier one -/
+/-- `pretend_valid_map.insert({sig, key})` on a std::set of pairs: a pair that is already present is not added again;
+    pairs with the same signature and different keys coexist.  (The list keeps insertion order; the iteration order of
+    the std::set — lexicographic on (signature, key) — is produced where the table is printed, `Driver/Pretend.lean`.) -/
 def pretendInsert (m : List (Bytes × Bytes)) (sig key : Bytes) : List (Bytes × Bytes) :=
-  if m.any (fun p => p.1 == sig) then m.map (fun p => if p.1 == sig then (sig, key) else p) else m ++ [(sig, key)]
+  if m.contains (sig, key) then m else m ++ [(sig, key)]
 
 structure PretendState where
   map : List (Bytes × Bytes) := []
@@ -37,7 +39,7 @@ def pretendLoop (cx : VCtx) : Nat → Bytes → PretendState → VM (Option Pret
         else pretendLoop cx fuel rest { st with gotSig := false, map := pretendInsert st.map st.sig s,
                                                 keys := if st.keys.contains s then st.keys else st.keys ++ [s] }
 
-/-- result: the (signature ↦ key) map and the key set; `.ok none` = option rejected -/
+/-- result: the set of (signature, key) pairs and the key set; `.ok none` = option rejected -/
 def parsePretendValidExpr (cx : VCtx) (expr : Bytes) : VM (Option (List (Bytes × Bytes) × List Bytes)) := do
   let expr := cstr expr
   match ← pretendLoop cx (expr.length + 1) expr {} with
